@@ -967,6 +967,14 @@ func c10EncodeGuards(c *Ctx, a *sketchAnchors) {
 			isInf := func(t *Term) bool {
 				return t.Op == "call" && t.Sym == "math.Inf" && len(t.Args) == 1 && t.Args[0].isConst(side.inf)
 			}
+			// math.IsInf(value, sign) with the sentinel's sign (or 0: either infinity) — the same test written with the
+			// library predicate
+			isInfCall := func(t *Term) bool {
+				if t.Op != "call" || t.Sym != "math.IsInf" || len(t.Args) != 2 || !isVal(t.Args[0]) {
+					return false
+				}
+				return t.Args[1].isConst(side.inf) || t.Args[1].isConst("0")
+			}
 			if !wrote {
 				// … and it is skipped ONLY then: a real extreme that is not written (0, say) comes back as the reader's
 				// default. Evidence on the path: the value equals the sentinel, or the statistics hold no weight (an empty
@@ -974,6 +982,9 @@ func c10EncodeGuards(c *Ctx, a *sketchAnchors) {
 				isSentinel := false
 				for _, cd := range p.Conds {
 					t := cd.Term
+					if isInfCall(t) && cd.Taken {
+						isSentinel = true
+					}
 					if (t.isBin("!=") || t.isBin("==")) && len(t.Args) == 2 {
 						if (isVal(t.Args[0]) && isInf(t.Args[1]) || isVal(t.Args[1]) && isInf(t.Args[0])) && cd.Taken == t.isBin("==") {
 							isSentinel = true
@@ -1000,6 +1011,9 @@ func c10EncodeGuards(c *Ctx, a *sketchAnchors) {
 			for _, cd := range p.Conds {
 				t := cd.Term
 				if (t.isBin("!=") || t.isBin("==")) && (isVal(t.Args[0]) && isInf(t.Args[1]) || isVal(t.Args[1]) && isInf(t.Args[0])) && cd.Taken == t.isBin("!=") {
+					guarded = true
+				}
+				if isInfCall(t) && !cd.Taken {
 					guarded = true
 				}
 			}
